@@ -68,6 +68,9 @@ func c15Pool(quick bool) []recipe {
 	modes := []int{shapes.Points, shapes.Opt}
 	if quick {
 		keys = []uint16{0, 1, 2, 0xFFFF}
+	} else {
+		// thorough: striped, ranged and many-run chunks as well (10 shapes ^ 5 keys x 2 modes = 200 000 states)
+		shapesOf = append(shapesOf, bit(shapes.S4095, shapes.Lo, shapes.Hi), bit(shapes.Big), bit(shapes.R2047))
 	}
 	n := 1
 	for range keys {
